@@ -284,7 +284,7 @@ var c19Out = &c19Log{}
 func c19Get(port int) (obs, detail string) {
 	tr := &http.Transport{DisableKeepAlives: true}
 	defer tr.CloseIdleConnections()
-	c := &http.Client{Transport: tr, Timeout: 20 * time.Second}
+	c := &http.Client{Transport: tr, Timeout: 60 * time.Second}
 	r, err := c.Get(fmt.Sprintf("http://127.0.0.1:%d/v", port))
 	if err != nil {
 		if errors.Is(err, syscall.ECONNREFUSED) {
@@ -1109,6 +1109,9 @@ func TestVerif_C19(t *testing.T) {
 	for _, n := range notes {
 		res.Note("%s", n)
 	}
+	if len(alphaA) != len(c19Events) || len(alphaB) != len(c19Events)-1 {
+		res.Exhaustive = false // an event of the stated alphabet could not be used on this tree
+	}
 	// total history depths (first event included); 0 = search not run in this tier
 	flatA, dedupA, flatB, dedupB := 3, 0, 3, 5
 	if p.Thorough {
@@ -1214,6 +1217,7 @@ func TestVerif_C19(t *testing.T) {
 	}
 
 	incomplete := map[string]int{}
+	sampled := map[string]int{}
 	for _, it := range items {
 		idx++
 		if !p.Mine(idx) {
@@ -1258,8 +1262,9 @@ func TestVerif_C19(t *testing.T) {
 				return "", false
 			}
 			distinct.Add(it.part + "|" + canon)
-			if len(evs) >= 3 {
-				res.Sample(6, map[string]any{"part": it.part, "history": c19Names(evs), "state": canon})
+			if len(evs) >= 3 && sampled[it.part] < 3 && evs[1].Stage != "valid" {
+				sampled[it.part]++
+				res.Sample(8, map[string]any{"part": it.part, "history": c19Names(evs), "state": canon})
 			}
 			return canon, true
 		}
